@@ -97,7 +97,51 @@ def main():
         print("FAIL: changed macro shape accepted")
     except Unsupported:
         pass
-    print("rs2lean_conv self-test: %d cases, %d failures" % (len(CASES) + 3, bad))
+    # BEGIN P03: Merkle index subset (struct seen through one field, checked_add + `?` on Option, slice::get, shifts) and
+    # the refusals that keep it sound
+    p03 = 0
+    def tr2(src, owner, self_ty, err=None, alias=None):
+        status = {"failed": {}, "translated": {}}
+        texts = []
+        ok = C.translate_one(dict(lname="f", rel="test.rs", src="impl X { " + src + " }", fn="f", anchor=r"impl X \{",
+                                  owner=owner, self_ty=self_ty, err=err, result_alias=alias, reg=("none",)), status, texts)
+        return ok, (texts[0] if texts else status["failed"].get("fn f"))
+    P03_CASES = [
+        ("TF.RustStd.checked_add 18446744073709551616", "MerkleTree", ("struct", "MerkleTree"),
+         "fn f(&self, index: usize) -> Option<Digest> { let first = self.nodes.len() / 2; let k = first.checked_add(index)?; self.nodes.get(k).copied() }"),
+        ("decide (self > 31)", "PartialMerkleTree", ("struct", "PartialMerkleTree"),
+         "fn f(&self) -> Result<usize> { if self.tree_height > MAX_TREE_HEIGHT { return Err(E1::A); } Ok(1 << self.tree_height) }"),
+        ("(Nat.log2 ", "MerkleTree", ("struct", "MerkleTree"),
+         "fn f(&self) -> usize { let n = self.nodes.len() / 2; n.ilog2() as usize }"),
+        (None, "only modelled through its field `tree_height`", "PartialMerkleTree", ("struct", "PartialMerkleTree"),
+         "fn f(&self) -> usize { self.leaf_indices.len() }"),
+        (None, "", "PartialMerkleTree", ("struct", "PartialMerkleTree"),
+         "fn f(h: usize) -> Self { PartialMerkleTree { tree_height: h } }"),
+        (None, "type T", None, None,
+         "fn f<T: BFieldCodec>(n: usize, s: &[BFieldElement]) -> Result<Vec<T>, E1> { let w = T::static_length().unwrap(); Ok(vec![]) }"),
+        (None, "", "MerkleTree", ("struct", "MerkleTree"),
+         "fn f(&self) -> usize { let mut i = 0; for _ in 0..self.nodes.len() { if i > 3 { return i; } i += 1; } i }"),
+    ]
+    for case in P03_CASES:
+        setup()
+        C.G.consts[("", "MAX_TREE_HEIGHT")] = (31, "usize")
+        C.G.structs["MerkleTree"] = ("field", "nodes", ("vec", ("struct", "Digest")))
+        C.G.structs["PartialMerkleTree"] = ("view", "tree_height", "usize")
+        if case[0] is not None:
+            want, owner, sty, src = case
+            ok, text = tr2(src, owner, sty, err="E1", alias="E1")
+            if not ok or want not in text:
+                bad += 1
+                print("FAIL (expected translation containing %r):\n  %s\n  -> %s" % (want, src, text))
+        else:
+            _, why, owner, sty, src = case
+            ok, text = tr2(src, owner, sty, err="E1", alias="E1")
+            if ok or why not in (text or ""):
+                bad += 1
+                print("FAIL (expected refusal %r):\n  %s\n  -> %s" % (why, src, text))
+        p03 += 1
+    # END P03
+    print("rs2lean_conv self-test: %d cases, %d failures" % (len(CASES) + 3 + p03, bad))
     return 1 if bad else 0
 
 
